@@ -1198,6 +1198,10 @@ run_reflector(void *arg)
 	if (pd_done > 0)
 		vs_fail("C13:device-stopped", "bus reflector device ended at once with %s", nng_strerror(pd_rv));
 	for (int round = 0; round < 2; round++) {
+		// (schedules: whether the device has re-posted its receive when the next message of the
+		// burst arrives decides between the direct hand-over and the receive queue)
+		if (round == 0)
+			vs_window(1);
 		for (int k = 0; k < nb; k++) {
 			char b[8];
 			snprintf(b, sizeof(b), "r%d-%d", round, k);
@@ -1205,6 +1209,8 @@ run_reflector(void *arg)
 				vs_fail("C13:plain-device", "bus peer cannot send");
 		}
 		vs_settle();
+		if (round == 0)
+			vs_window(0);
 		for (int i = 0; i < 3; i++) {
 			for (int k = 0;; k++) {
 				uint8_t buf[16];
@@ -1292,7 +1298,7 @@ main(int argc, char **argv)
 		snprintf(nm, sizeof(nm), "plain-device-%s", PF[i].name);
 		explore(strdup(nm), run_plain, (void *) (intptr_t) i);
 	}
-	explore("plain-device-bus-reflector", run_reflector, NULL);
+	explore_b("plain-device-bus-reflector", run_reflector, NULL, 1, T ? 2 : 1, T ? 2 : 1, 60);
 	vx_note("plain-devices", "pair0 pair1 bus pushpull pubsub: one device between two raw sockets, both "
 	                         "argument orders, bodies {5,0,1,300,70000,4} bytes, both "
 	                         "directions where there are two; each body arrives once, unchanged; bus reflector (one raw socket, three "
